@@ -480,6 +480,15 @@ fn adversary_dials(run: &mut Run, rng: &mut Rng, keys: &Keys, case: u64) -> anyh
     if !listed.is_empty() && admitted != Some(hs_signer) {
         run.oracle_fail(json!({"kind": "listener admitted / listed a dialer under an identity whose private key the dialer does not hold", "ops": [op.clone()], "listed": listed.iter().map(pid_hex).collect::<Vec<_>>(), "events": evs, "der": hex::encode(&cert)}));
     }
+    if !listed.is_empty() {
+        let eq = |a: &str, b: &str| a.eq_ignore_ascii_case(b);
+        let sni_ok = accepted.iter().any(|a| eq(a, &sni));
+        let cert_ok = present_cert && (spec.corrupt.is_some() || spec.names.iter().any(|n| accepted.iter().any(|a| eq(a, n))));
+        if !sni_ok || !cert_ok {
+            run.oracle_fail(json!({"kind": "listener admitted a dialer whose claimed network name it does not accept, or whose certificate is not valid for an accepted name", "ops": [op.clone()],
+                "accepted": accepted, "claimed": sni, "certificate_names": spec.names, "der": hex::encode(&cert)}));
+        }
+    }
     if listed.is_empty() && (got_ack || !evs.is_empty()) {
         run.oracle_fail(json!({"kind": "a rejected dialer was acknowledged or announced", "ops": [op.clone()], "got_ack": got_ack, "events": evs}));
     }
